@@ -180,7 +180,8 @@ class LoaderEngine(VectorEngine):
             ctx.violation(f"{tag}-trace#{cid}", dict(input=inp, rendered=case, flow="B",
                           expected=f"a behaviour of Loader.tla (Trace_Loader rejected event {j} of the run)",
                           actual=events_for(inp["files"], r, cid)))
-        ctx.validate_cases("Trace_Loader", "Trace_Loader.cfg", runs, on_reject=on_reject, tag=tag.replace("/", "_"))
+        # every rejection costs one more validation pass over the chunk's traces (1-2 minutes): five rejected runs are report enough
+        ctx.validate_cases("Trace_Loader", "Trace_Loader.cfg", runs, on_reject=on_reject, tag=tag.replace("/", "_"), max_rejects=5)
 
     def flow_b(self, ctx, n):
         rng = ctx.rng
